@@ -795,7 +795,11 @@ impl Machine {
                     keys: vec![],
                     data: vec![],
                 };
-                let mut b = AnnotationDataSetBuilder::new().with_id(id);
+                // two construction routes: the builder (add_dataset), or - one time in three - a dataset instance built
+                // with AnnotationDataSet::new().with_id().with_data()/with_data_with_id() and inserted into the store
+                let direct = *sfx % 3 == 2;
+                let mut b = AnnotationDataSetBuilder::new().with_id(id.clone());
+                let mut pairs: Vec<(String, DataValue, Option<String>)> = vec![];
                 for d in data {
                     let key = self.keyname(d.key).to_string();
                     let did = if d.with_id { Some(self.fresh("D", d.key)) } else { None };
@@ -803,6 +807,7 @@ impl Machine {
                     if !new {
                         step.labels.push("repeated_pair");
                     }
+                    pairs.push((key.clone(), d.val.to_stam(), did.clone()));
                     let mut db = AnnotationDataBuilder::new()
                         .with_key(BuildItem::Id(key))
                         .with_value(d.val.to_stam());
@@ -811,7 +816,22 @@ impl Machine {
                     }
                     b = b.with_data(db);
                 }
-                let res = catch(|| self.store.add_dataset(b));
+                let res = if direct {
+                    step.labels.push("dataset_built_directly");
+                    let config = self.store.config().clone();
+                    catch(|| {
+                        let mut ds = AnnotationDataSet::new(config).with_id(id);
+                        for (key, value, did) in pairs {
+                            ds = match did {
+                                Some(did) => ds.with_data_with_id(BuildItem::Id(key), value, BuildItem::Id(did))?,
+                                None => ds.with_data(BuildItem::Id(key), value)?,
+                            };
+                        }
+                        self.store.insert(ds)
+                    })
+                } else {
+                    catch(|| self.store.add_dataset(b))
+                };
                 self.model.sets.push(Some(mset));
                 self.finish_add(&mut step, res.map(|r| r.map(|h| h.as_usize())), expected);
                 step
